@@ -1709,7 +1709,7 @@ Proof.
   destruct ca as [|a0 ca']; cbn [map]; [destruct strict; reflexivity|].
   rewrite arg_string_ze.
   destruct (negb (str_eqb (arg_string a0) name)); [destruct strict; reflexivity|].
-  rewrite skipn_map, read_spacer_zt.
+  rewrite <- ?(map_cons zt t l). rewrite skipn_map, read_spacer_zt.
   destruct (read_spacer (skipn 2 (t :: l))) as [b src2]. cbn [fst snd].
   destruct src2 as [|c src3]; cbn [map]; [reflexivity|].
   zbindn Zg g1 s2. reflexivity.
